@@ -80,7 +80,18 @@ func writeConsts(w io.Writer) {
 	fmt.Fprintln(w, "   tag verif). Do not edit: models and theorems are stated over these names. *)")
 	fmt.Fprintln(w, "From VR Require Import Lib.Bytes.")
 	fmt.Fprintln(w, "Open Scope N_scope.")
+	seen := map[string]string{}
 	for _, c := range vgirpc.VerifConstants() {
+		// the same constant may be exported by two hook files: keep the first
+		// definition when the values agree, and make a disagreement a build error
+		sig := fmt.Sprintf("%s|%q|%d|%q", c.Kind, c.Bytes, c.Num, c.List)
+		if prev, dup := seen[c.Name]; dup {
+			if prev != sig {
+				fmt.Fprintf(w, "Definition %s : Prop := False. (* CONFLICTING duplicate constant exported by two hooks *)\n", c.Name)
+			}
+			continue
+		}
+		seen[c.Name] = sig
 		switch c.Kind {
 		case "bytes":
 			fmt.Fprintf(w, "Definition %s : bytes := Eval compute in %s. (* %q *)\n", c.Name, B(c.Bytes), c.Bytes)
